@@ -354,7 +354,7 @@ def _state(w):
     return [str(w.ptype), body]
 
 
-def run_impl(c):
+def run_impl(c, hook=None):
     lentil = C.import_lentil()
     c = dict(c)
     c.setdefault('pool', [])
@@ -402,9 +402,12 @@ def run_impl(c):
                 fn = (lambda ww, pl=pl: ww * pl)
             sw = snapshot(w)
             sp = snapshot(pl)
+            pre = hook.pre(lentil, kind, name, v, w, pl, reg) if hook else None
             try:
                 r = fn(w)
             except Exception as e:
+                if hook:
+                    hook.post(c, len(trace), pre, None, type(e).__name__)
                 entry['raises'] = type(e).__name__
                 entry['kept'] = _state(w)
                 entry['w_unchanged'] = snapshot(w) == sw
@@ -414,6 +417,8 @@ def run_impl(c):
                     entry['yields'] = ['<' + type(r).__name__ + '>', None]
                     trace.append(entry)
                     break
+                if hook:
+                    hook.post(c, len(trace), pre, r, None)
                 entry['yields'] = _state(r)
                 entry['same_object'] = r is w
                 w = r
@@ -570,6 +575,215 @@ def replay_known(f):
     return still
 
 
+# ------------------------------------------------------------------ tie of the code model (Model/PTypeMeta.v)
+# Every multiplication and propagation of a sample of the generated histories is run a second time through
+# the extracted hand-written model of Plane.multiply / Pupil / Image / TiltInterface.multiply / propagate_dft /
+# propagate_fft on the METADATA of the real operands (type, pixel scale, focal length, wavelength, shape,
+# tilt objects per field; for planes: ptype, pixel scale, shape, segments, which multiply() the class runs).
+# Compared: the exception class, or the whole metadata record of the result.
+from fractions import Fraction
+
+
+def _fr(x):
+    return Fraction(*float(x).as_integer_ratio())
+
+
+def _enc_q(q):
+    return [q.numerator, q.denominator]
+
+
+def _ps(ps):
+    if ps is None:
+        return None
+    a = np.broadcast_to(np.asarray(ps, dtype=float), (2,))
+    return (_fr(a[0]), _fr(a[1]))
+
+
+def _shape(sh):
+    if sh is None:
+        return None
+    t = tuple(int(x) for x in np.atleast_1d(np.asarray(sh)).ravel())
+    return None if len(t) == 0 else (t if len(t) == 2 else (t[0], t[0]))
+
+
+def wavefront_meta(w):
+    fl = w.focal_length
+    return {'ty': str(w.ptype), 'ps': _ps(w.pixelscale),
+            'focal': 'none-attr' if fl is None else None if np.isinf(fl) else _fr(fl),
+            'wl': _fr(w.wavelength), 'shape': _shape(w.shape), 'fields': [len(f.tilt) for f in w.data]}
+
+
+def _enc_wmeta(m):
+    out = [WTYPES.index(m['ty'])]
+    out += [0] if m['ps'] is None else [1] + _enc_q(m['ps'][0]) + _enc_q(m['ps'][1])
+    out += [0] if m['focal'] is None else [1] + _enc_q(m['focal'])
+    out += _enc_q(m['wl'])
+    out += [0] if m['shape'] is None else [1, m['shape'][0], m['shape'][1]]
+    out += [len(m['fields'])] + list(m['fields'])
+    return out
+
+
+def _dec_wmeta(rd):
+    ty = WTYPES[rd.z()]
+    ps = (rd.q(), rd.q()) if rd.z() else None
+    focal = rd.q() if rd.z() else None
+    wl = rd.q()
+    shape = (rd.z(), rd.z()) if rd.z() else None
+    fields = [rd.z() for _ in range(rd.z())]
+    return {'ty': ty, 'ps': ps, 'focal': focal, 'wl': wl, 'shape': shape, 'fields': fields}
+
+
+def plane_kind(lentil, pl):
+    """which multiply() the object's class runs -> kind code, or None (Rotate, Flip, anything else)"""
+    P = sys_modules_plane(lentil)
+    f = type(pl).multiply
+    if f is P.Plane.multiply:
+        return [0]
+    if f is P.Pupil.multiply:
+        fl = pl.focal_length
+        return [1, 0] if fl is None else [1, 1] if np.isinf(fl) else [1, 2] + _enc_q(_fr(fl))
+    if f is P.Image.multiply:
+        return [2]
+    if f is P.TiltInterface.multiply:
+        return [3]
+    return None
+
+
+def sys_modules_plane(lentil):
+    import sys
+    return sys.modules['lentil.plane']
+
+
+def overlaps(lentil, pl, w):
+    """ov[i][n]: does field i meet segment n of the plane - decided by lentil's own Field product on a unit
+    phasor with the geometry Plane.multiply gives it"""
+    Field = lentil.field.Field
+    rows = []
+    for field in w.data:
+        row = []
+        for n, s in enumerate(pl._slice):
+            mask = pl.mask if pl.mask.ndim < 3 else pl.mask[n]
+            if pl.amplitude.size == 1:
+                shp = np.broadcast(pl.amplitude, mask).shape if mask.size == 1 else mask[s].shape
+            else:
+                shp = pl.amplitude[s].shape
+            ph = Field(data=np.ones(shp, dtype=complex), pixelscale=pl.pixelscale,
+                       offset=lentil.helper.slice_offset(s, pl.shape))
+            row.append(1 if (field * ph).size > 0 else 0)
+        rows.append(row)
+    return rows
+
+
+class MetaTie:
+    def __init__(self):
+        self.items = []          # (case, step, encoded model input, expected)
+        self.skipped = {}
+
+    def skip(self, why):
+        self.skipped[why] = self.skipped.get(why, 0) + 1
+
+    def pre(self, lentil, kind, name, v, w, pl, reg):
+        try:
+            wm = wavefront_meta(w)
+            if wm['focal'] == 'none-attr':
+                self.skip('wavefront focal_length attribute is None')
+                return None
+            if kind == 'prop':
+                du, os_, shape = gen_ptype.propagate_call_args(name, v, reg)
+                dq = _ps(du)
+                enc = [6 if name == 'dft' else 7] + _enc_wmeta(wm) + _enc_q(dq[0]) + _enc_q(dq[1]) + [int(os_)]
+                sh = _shape(shape)
+                enc += [0] if sh is None else [1, sh[0], sh[1]]
+                if name == 'dft':
+                    enc += [1] * len(wm['fields'])
+                return {'enc': enc, 'kind': name, 'nf': len(wm['fields'])}
+            k = plane_kind(lentil, pl)
+            if k is None:
+                self.skip('class with its own multiply (Rotate, Flip)')
+                return None
+            if pl.tilt:
+                self.skip('plane with fitted tilt')
+                return None
+            ov = overlaps(lentil, pl, w)
+            enc = [5] + _enc_wmeta(wm)
+            enc += [PTYPES.index(str(pl.ptype))]
+            pps = _ps(pl.pixelscale)
+            enc += [0] if pps is None else [1] + _enc_q(pps[0]) + _enc_q(pps[1])
+            psh = _shape(pl.shape)
+            enc += [0] if psh is None else [1, psh[0], psh[1]]
+            enc += [len(pl._slice), 0] + k
+            for row in ov:
+                enc += row
+            return {'enc': enc, 'kind': 'mul'}
+        except Exception as e:
+            self.skip('could not read the operands: ' + type(e).__name__)
+            return None
+
+    def post(self, c, step, pre, r, exc):
+        if pre is None:
+            return
+        if exc is not None:
+            exp = {'err': EXC_CODE.get(exc, 0), 'name': exc}
+        else:
+            exp = wavefront_meta(r)
+            if pre['kind'] == 'dft' and len(exp['fields']) != pre['nf']:
+                self.skip('a propagated field left the output window')
+                return
+        self.items.append((c, step, pre, exp))
+
+
+def _meta_compare(pre, exp, out):
+    if out[0] == 2:
+        return 'the model decoder rejected the encoded operands (harness bug)'
+    if 'err' in exp:
+        if out[0] != 1:
+            return f'implementation raised {exp["name"]}, code model returned a result'
+        return None if out[1] == exp['err'] else f'implementation raised {exp["name"]}, code model error code {out[1]}'
+    if out[0] != 0:
+        return f'implementation returned a wavefront, code model raised error code {out[1]}'
+    rd = C.Reader(out[1:])
+    if pre['kind'] == 'mul':
+        tag = rd.z()
+        if (exp['focal'] == 'none-attr') != (tag == 1):
+            return f'focal_length attribute of the product: implementation {exp["focal"]}, code model tag {tag}'
+    got = _dec_wmeta(rd)
+    for key in ('ty', 'ps', 'wl', 'shape', 'fields') + (() if exp['focal'] == 'none-attr' else ('focal',)):
+        if got[key] != exp[key]:
+            return f'{key} of the result: implementation {exp[key]}, code model {got[key]}'
+    return None
+
+
+def meta_tie(tier, rng):
+    binp = C.build_model(MODEL)
+    tie = MetaTie()
+    cases = list(C.load_corpus(ID))
+    gen = list(generate(random_like(rng), tier))
+    step = max(1, len(gen) // (900 if tier != 'thorough' else 4000))
+    cases += gen[::step]
+    for c in cases:
+        try:
+            run_impl(c, hook=tie)
+        except Exception:
+            tie.skip('history could not be built')
+    outs = C.run_model(binp, [it[2]['enc'] for it in tie.items]) if tie.items else []
+    viol = []
+    kinds = {}
+    for (c, stepi, pre, exp), out in zip(tie.items, outs):
+        kinds[pre['kind']] = kinds.get(pre['kind'], 0) + 1
+        msg = _meta_compare(pre, exp, out)
+        if msg and len(viol) < 5:
+            viol.append({'case': {k: v for k, v in c.items() if not k.startswith('_')},
+                         'impl': C.jsonable({k: str(v) for k, v in exp.items()}),
+                         'what': f'code model (Model/PTypeMeta.v) and implementation disagree at step {stepi} '
+                                 f'{c["ops"][stepi]}: {msg}'})
+    return {'histories': len(cases), 'steps_compared': kinds, 'skipped': tie.skipped}, viol
+
+
+def random_like(rng):
+    import random
+    return random.Random(rng.random())
+
+
 # ------------------------------------------------------------------ extra: what the generated tables contain
 def extra(tier, rng):
     obs = _cache.get('obs') or gen_ptype.observe_all()
@@ -585,4 +799,5 @@ def extra(tier, rng):
            'constructions_per_cell': {'Plane(ptype=p)': len(gen_ptype.PLANE_VARIANTS),
                                       'propagate_dft': len(gen_ptype.DFT_VARIANTS),
                                       'propagate_fft': len(gen_ptype.FFT_VARIANTS)}}
-    return {'report': rep, 'violations': []}
+    rep['code_model_tie'], viol = meta_tie(tier, rng)
+    return {'report': rep, 'violations': viol}
